@@ -44,7 +44,7 @@ ASSUMPTIONS = [
 DECIDING = ["averaging", "split", "non_measured", "exact", "bind", "permutation-equivariance"]
 BRANCHES = ["non_measured:constant", "non_measured:zero_shot", "averaging:measured", "split:not_measured", "split:measured"]
 EXHAUSTIVE = {"kinds_exh": "all sequences of task kinds {measured, constant, zero-shot} of length 0..4 (quick) / 0..6 (thorough)"}
-BUDGET = {"quick": (4, 20, 100000), "thorough": (16, 150, 1000000)}
+BUDGET = {"quick": (4, 20, 900), "thorough": (16, 150, 1000000)}
 
 SIM_NAMES = {"SymbolicSimulator", "PartialNativeSim", "DefaultPredicateSim"}
 
